@@ -88,6 +88,9 @@ func SameArray(a, b any) bool { panic("verifspec: ghost function") }
 // many elements have been pulled from it so far.
 func IterLen(it any) int            { panic("verifspec: ghost function") }
 func IterPos(it any) int            { panic("verifspec: ghost function") }
+
+// IterProbes(it): how many times HasNext of the input iterator it has been called so far.
+func IterProbes(it any) int { panic("verifspec: ghost function") }
 func IterAt[T any](it any, i int) T { panic("verifspec: ghost function") }
 
 // Do runs a statement-like thunk inside an expression (for Panics / EqT).
@@ -101,6 +104,31 @@ func Havoc(roots ...any) {}
 
 // Assume restricts the rest of the lemma to executions where b holds.
 func Assume(b bool) {}
+
+// Assert is a proof cut: b becomes an obligation of its own at this point and is
+// known afterwards (an intermediate lemma for the solver; never an assumption).
+func Assert(b bool) {}
+
+// Ghost[T]("h"): inside a ghost statement of a function whose contract has `ghostparam h T`, the value of
+// that ghost parameter (bound by the verifier to the nearest caller's parameter of that name).
+func Ghost[T any](name string) T { panic("verifspec: ghost function") }
+
+// Fold(func() bool { return Rec_p(obj, …) }) for an object allocated by the function under contract: the
+// body of Rec_p is an obligation at this point, and the predicate is recorded as an application on obj
+// (matching the opaque applications on values read back from memory).  obj must not be written afterwards.
+func Fold(b func() bool) {}
+
+// AssertDyn: as Assert; the condition is given as a thunk and evaluated with dynamic-dispatch facts
+// (a call on a receiver of unknown dynamic type is related to the methods of the objects allocated so far).
+func AssertDyn(b func() bool) {}
+
+// AssertPure: as Assert, proved from the quantifier-free part of the context only.
+func AssertPure(b bool) {}
+
+// Reveal(Rec_f(n, …)): for an opaque node n the application Rec_f(n, …) is an uninterpreted
+// predicate; Reveal adds its definition for this one instance (app == body), so that it can be
+// unfolded or established where the proof needs it and stays opaque elsewhere.
+func Reveal(b bool) {}
 
 // Cell reads the variable called name captured (transitively) by the closures of root.
 func Cell[T any](root any, name string) T { panic("verifspec: ghost function") }
